@@ -143,7 +143,7 @@ def _enum_case(ch, out):
     cfg = dict(ENUM_CFGS[ci], naxis=2, nplanes=1, cube_index=0, bitpix=-64, bscale=None)
     content = dict(seed=7, kind="noise", offset_pow=3, offset_neg=False, sigma_pow=0, blank="pixels", blank_inf=False, blank_seed=3)
     img = bw.make_image(cfg, content)
-    fn = bw.write_image(os.path.join(bw.tmpdir(), "c07e.fits"), cfg, img)
+    fn = bw.write_image(bw.fresh_path("c07e"), cfg, img)
     hot, line = (0, 0) if gran == 0 else (0, 1)
     sched = bw.canonical_sched(hot, line)
     out.sample = {"enumeration": {"config": _cfg_str(cfg), "granularity": "yield points" if gran == 0 else "source lines"},
@@ -199,7 +199,14 @@ def case(ch):
     fault_kind = ("none", "exc", "kill")[ch.weighted("fault_kind", [5, 5, 1])]
     other_layout = ch.chance("other_layout", 1, 3)
     img = bw.make_image(cfg, content)
-    fn = bw.write_image(os.path.join(bw.tmpdir(), "c07.fits"), cfg, img)
+    fn = bw.write_image(bw.fresh_path("c07"), cfg, img)
+    try:
+        return _case_body(ch, out, cfg, content, hot, line, nvar, fault_kind, other_layout, fn)
+    finally:
+        bw.remove_quietly(fn)
+
+
+def _case_body(ch, out, cfg, content, hot, line, nvar, fault_kind, other_layout, fn):
     out.sample = {"config": _cfg_str(cfg), "content": content["kind"], "blank": content["blank"],
                   "yield": {"hot_stride": hot, "line_mode": line}, "variants": nvar, "fault": fault_kind,
                   "other_layout": bool(other_layout), "runs": []}
@@ -349,7 +356,7 @@ def extra(tier, base_seed):
         cfg = bw.gen_config(ch, allow_thin=False)
         content = bw.gen_content(ch, cfg)
         img = bw.make_image(cfg, content)
-        fn = bw.write_image(os.path.join(bw.tmpdir(), "conf%d.fits" % i), cfg, img)
+        fn = bw.write_image(bw.fresh_path("conf"), cfg, img)
         sim = _run(fn, cfg, bw.canonical_sched(0, 0), ch, fill="zeros")
         if sim.status != "returned":
             # the simulated run itself fails on this tree: that is the main batch's business, nothing to compare
